@@ -133,6 +133,11 @@ def fixed_programs():
 
 
 # ------------------------------------------------------------------------------------------------------
+def _src_const(node):
+    import ast
+    return all(isinstance(n, (ast.Constant, ast.BinOp, ast.operator, ast.expr_context)) for n in ast.walk(node))
+
+
 def _is_const(e):
     return e.isdigit() or (e.startswith("(0 - ") and e[5:-1].isdigit())
 
@@ -152,6 +157,13 @@ class _Gen:
         self.budget = size                     # remaining compound statements
         self.hard = 0                          # symbolic*symbolic multiplications / divisions so far
         self.ndiv = 0                          # floor divisions so far (at most 2 per function: solver effort)
+        # conditions stay linear in the arguments (feasibility of a path must not require solving non-linear
+        # equations): `nl` = variables that may hold a quotient / a product of two variables (never
+        # compared); `condvars` = variables that occur in a condition (never assigned such a value)
+        self.nl = set()
+        self.condvars = set()
+        self.helper_nl = False                 # g may return a non-linear value
+        self.helper_cond = False               # g branches on its parameters
 
     # -- expressions
     def const(self):
@@ -159,6 +171,21 @@ class _Gen:
         if self.r.random() < 0.2 and c:
             return f"(0 - {c})"
         return str(c)
+
+    def is_nl(self, e):
+        """may the expression (source text) be non-linear in the arguments?"""
+        import ast
+        for n in ast.walk(ast.parse(e, mode="eval")):
+            if isinstance(n, ast.BinOp):
+                if isinstance(n.op, ast.FloorDiv):
+                    return True
+                if isinstance(n.op, ast.Mult) and not (_src_const(n.left) or _src_const(n.right)):
+                    return True
+            elif isinstance(n, ast.Name) and n.id in self.nl:
+                return True
+            elif isinstance(n, ast.Call) and self.helper_nl:
+                return True
+        return False
 
     def leaf(self, env):
         if self.r.random() < 0.7 and env:
@@ -171,6 +198,8 @@ class _Gen:
             return self.leaf(env)
         if self.have_helper and r < 0.38:
             self.feats.add("call")
+            if self.helper_cond:
+                return f"g({self.lin(env, False)}, {self.lin(env, False)})"
             return f"g({self.expr(env, depth + 1)}, {self.leaf(env)})"
         op = self.r.choices(OPS, weights=[35, 30, 20, 15])[0]
         if op == "//":
@@ -198,16 +227,19 @@ class _Gen:
         y = f"({y})" if " " in y and not _is_const(y) and not y.startswith("g(") else y
         return f"{x} {op} {y}"
 
-    def lin(self, env):
+    def lin(self, env, in_cond=True):
         """linear operand of a comparison (conditions with divisions / products of two variables make path
         feasibility a non-linear problem: those are covered by the enumerated part only)"""
+        env = {v for v in env if v not in self.nl}
         r = self.r.random()
         x = self.leaf(env)
-        if r < 0.45:
-            return x
-        y = self.leaf(env)
-        if _is_const(x) and _is_const(y) and env:
+        y = self.leaf(env) if r >= 0.45 else None
+        if y is not None and _is_const(x) and _is_const(y) and env:
             x = self.r.choice(sorted(env))
+        if in_cond:
+            self.condvars.update(v for v in (x, y) if v in env)
+        if y is None:
+            return x
         if r < 0.85:
             self.feats.add("add" if r < 0.65 else "sub")
             return f"{x} {'+' if r < 0.65 else '-'} {y}"
@@ -244,6 +276,17 @@ class _Gen:
 
     def simple(self, env, frozen):
         """one assignment; returns (lines, new env)"""
+        ls, env2, v, rhs_nl = self._simple(env, frozen)
+        if v is not None:
+            if rhs_nl and v in self.condvars:
+                # v is compared somewhere (maybe in an earlier iteration's condition): keep it linear
+                ls = [f"{v} = {self.lin(env, False)}"]
+                self.feats.add("add")
+            elif rhs_nl:
+                self.nl.add(v)
+        return ls, env2
+
+    def _simple(self, env, frozen):
         targets = self.assignable(env, frozen)
         fresh = [v for v in self.fresh if v not in env]
         r = self.r.random()
@@ -265,14 +308,17 @@ class _Gen:
                     e = "2"
             else:
                 e = self.expr(env, 1)
-            return [f"{v} {op}= {e}"], env
+            nl = op == "//" or (op == "*" and not _is_const(e)) or self.is_nl(e) or v in self.nl
+            return [f"{v} {op}= {e}"], env, v, nl
         if fresh and (r < 0.8 or not targets):
             v = fresh[0]
-            return [f"{v} = {self.expr(env)}"], env | {v}
+            e = self.expr(env)
+            return [f"{v} = {e}"], env | {v}, v, self.is_nl(e)
         v = self.r.choice(targets) if targets else None
         if v is None:
-            return ["pass"], env
-        return [f"{v} = {self.expr(env)}"], env
+            return ["pass"], env, None, False
+        e = self.expr(env)
+        return [f"{v} = {e}"], env, v, self.is_nl(e)
 
     def block(self, env, depth, loops, frozen, maxlen=3):
         """returns (lines, env after (definitely assigned), falls_through)"""
@@ -409,6 +455,9 @@ def random_program(rnd, pid):
     nb = rnd.random()
     bound = ["a"] if nb < 0.6 else (["a", "b"] if nb < 0.8 else ["b"])
     f = _Gen(rnd, "f", ["a", "b"], bound, have_helper, size=rnd.choice([1, 2, 2, 3]))
+    if have_helper:
+        f.helper_nl = cost(_fn("g", ["x", "y"], helper)) > 0
+        f.helper_cond = any(ln.lstrip().startswith(("if ", "elif ", "while ")) for ln in helper)
     body = f.function()
     feats |= f.feats
     if not (feats & {"loop", "if", "call"}):
@@ -418,7 +467,7 @@ def random_program(rnd, pid):
 
 def cost(src):
     """static estimate of the solver effort of a program: floor divisions by a constant count 1, by a
-    non-constant 2, multiplications of two non-constant operands 2, calls the cost of the callee; x3 per
+    non-constant 2, multiplications of two non-constant operands 2, calls the cost of the callee; x5 per
     enclosing loop (unwinding)"""
     import ast
     tree = ast.parse(src)
@@ -432,7 +481,7 @@ def cost(src):
         for ch in ast.iter_child_nodes(node):
             m = mult
             if isinstance(node, (ast.For, ast.While)) and ch in node.body:
-                m = mult * 3
+                m = mult * 5
             c += walk(ch, m)
         if isinstance(node, ast.BinOp) or isinstance(node, ast.AugAssign):
             l, r = (node.left, node.right) if isinstance(node, ast.BinOp) else (node.target, node.value)
